@@ -121,6 +121,11 @@ def _namings():
         "ticked-digits": ({"X": "`1`", "Y": "`0`", "Z": "`10`"}, ["0", "1", "2", "10"], "from_spec"),
         "ticked-digits-2": ({"X": "`2`", "Y": "`1`", "Z": "`0.5`"}, ["2", "0.5", "1"], "from_spec"),
         "spec-digits": ({"X": "`1`", "Y": "`2`", "Z": "x"}, "digits", "model_spec"),
+        # model-matrix style column names (index / call shaped) written bare (a PYTHON token) AND back-quoted (a NAME token)
+        # in the same constraint: X and Y are two spellings of ONE column and must be merged
+        "both-spellings": ({"X": "A[T.b]", "Y": "`A[T.b]`", "Z": "z"}, ["z", "A[T.b]"], "from_spec"),
+        "both-spellings-call": ({"X": "`np.log(x)`", "Y": "np.log(x)", "Z": "`x:A[T.b]`"}, ["np.log(x)", "C(a)[T.x]", "x:A[T.b]"], "from_spec"),
+        "spec-both-spellings": ({"X": "A[T.c]", "Y": "`A[T.c]`", "Z": "`x:y`"}, "categorical", "model_spec"),
     }
 
 
@@ -288,7 +293,8 @@ def selfcheck(cons_parsed, trees, toks_map, names):
 VARIANTS_LIGHT = [("min", True, "xyz"), ("full", True, "zyx"), ("min", False, "zyx"), ("leafy", False, "xyz")]
 VARIANTS_ALL = [(st, sp, nm) for st in ("min", "full", "leafy") for sp in (True, False)
                 for nm in ("xyz", "zyx", "extra", "ticked", "ticked-plain", "spec-numeric", "spec-categorical",
-                           "ticked-digits", "ticked-digits-2", "spec-digits")]
+                           "ticked-digits", "ticked-digits-2", "spec-digits",
+                           "both-spellings", "both-spellings-call", "spec-both-spellings")]
 
 
 def drv_expr(c, ctx, col):
@@ -564,18 +570,18 @@ def subchecks(tier, seed):
         subs.append(Sub("forms", drv_forms, {"pool": pool2, "n": 2, "nmin": 1, "namings": ["zyx", "spec-categorical"],
                                               "styles": ["min"], "values": [-2, 2.5]},
                         shard_depth=2, bounds={"constraints": "1..2", "pool": len(pool2), "forms": FORMS, "mapping_values": [-2, 2.5]}))
-        subs.append(Sub("forms-3", drv_forms, {"pool": pool3, "n": 3, "nmin": 3, "namings": ["xyz", "spec-numeric", "ticked-digits"], "styles": ["min"],
+        subs.append(Sub("forms-3", drv_forms, {"pool": pool3, "n": 3, "nmin": 3, "namings": ["xyz", "spec-numeric", "ticked-digits", "both-spellings"], "styles": ["min"],
                                                 "values": [-0.75]},
                         shard_depth=3, bounds={"constraints": 3, "pool": len(pool3), "forms": FORMS, "mapping_values": [-0.75]}))
         subs.append(Sub("namings", drv_expr, {"eq": True, "k": 1, "kmin": 0, "leaves": [X, Y, Z, "2"], "variants": VARIANTS_ALL, "neg": False},
-                        shard_depth=3, bounds={"max_binary_operators_both_sides": 1, "leaves": "x y z 2", "variants": "all 60 (3 styles x 2 spacings x 10 namings)"}))
+                        shard_depth=3, bounds={"max_binary_operators_both_sides": 1, "leaves": "x y z 2", "variants": "all 78 (3 styles x 2 spacings x 13 namings)"}))
         subs.append(Sub("unary", drv_unary, {"k": 1, "leaves": LEAVES3, "namings": ["xyz"]}, shard_depth=3,
                         bounds={"max_binary_operators": 1, "leaves": three, "one unary sign": "every node, - and +, parenthesised and bare, 4 shapes"}))
         subs.append(Sub("unary-2", drv_unary, {"k": 2, "kmin": 2, "leaves": LEAVES3, "namings": ["xyz"], "shapes": ["E", "2 = E"],
                                                 "signs": ["neg"], "spacing": False}, shard_depth=4,
                         bounds={"binary_operators": 2, "leaves": three, "one unary minus": "every node, parenthesised and bare, shapes E and 2 = E"}))
         subs.append(Sub("mapping-values", drv_forms, {"pool": pool2, "n": 1, "nmin": 1, "forms": ["mapping"], "styles": ["min"],
-                                                       "namings": ["xyz", "ticked", "spec-numeric", "spec-digits"], "values": VALUE_TYPES},
+                                                       "namings": ["xyz", "ticked", "spec-numeric", "spec-digits", "spec-both-spellings"], "values": VALUE_TYPES},
                         shard_depth=2, bounds={"constraints": 1, "pool": len(pool2), "forms": ["mapping"],
                                                "mapping_values": [repr(v) for v in VALUE_TYPES], "namings": ["xyz", "ticked", "spec-numeric", "spec-digits"]}))
         subs.append(Sub("unspecified-probes", drv_probes, {}, shard_depth=1, bounds={"probes": [p[1] for p in PROBES]}))
@@ -602,11 +608,11 @@ def subchecks(tier, seed):
                                                 "styles": ["min"], "values": [0, 1, -0.75]},
                         shard_depth=3, bounds={"constraints": 3, "pool": len(pool3), "forms": FORMS, "mapping_values": [0, 1, -0.75]}))
         subs.append(Sub("namings", drv_expr, {"eq": True, "k": 1, "kmin": 0, "leaves": [X, Y, Z, "2", "0.5"], "variants": VARIANTS_ALL},
-                        shard_depth=3, bounds={"max_binary_operators_both_sides": 1, "leaves": "x y z 2 0.5", "variants": "all 60 x head minus"}))
+                        shard_depth=3, bounds={"max_binary_operators_both_sides": 1, "leaves": "x y z 2 0.5", "variants": "all 78 x head minus"}))
         subs.append(Sub("unary", drv_unary, {"k": 2, "leaves": LEAVES3, "namings": ["xyz", "ticked"]}, shard_depth=4,
                         bounds={"max_binary_operators": 2, "leaves": three, "one unary sign": "every node, - and +, parenthesised and bare, 4 shapes"}))
         subs.append(Sub("mapping-values", drv_forms, {"pool": pool3, "n": 2, "nmin": 1, "forms": ["mapping"], "styles": ["min"],
-                                                       "namings": ["xyz", "ticked", "spec-numeric", "spec-digits"], "values": VALUE_TYPES},
+                                                       "namings": ["xyz", "ticked", "spec-numeric", "spec-digits", "spec-both-spellings"], "values": VALUE_TYPES},
                         shard_depth=2, bounds={"constraints": "1..2", "pool": len(pool3), "forms": ["mapping"],
                                                "mapping_values": [repr(v) for v in VALUE_TYPES], "namings": ["xyz", "ticked", "spec-numeric", "spec-digits"]}))
         subs.append(Sub("unspecified-probes", drv_probes, {}, shard_depth=1, bounds={"probes": [p[1] for p in PROBES]}))
